@@ -33,7 +33,7 @@ class SpecMixin:
 
     def spec_call(self, st, n):
         TRACE_FUNCS = ("effect", "no_effect", "effect_count", "effect_result", "effect_arg", "effect_arg_nth", "effect_with_arg", "effect_before",
-                       "at_effect", "reached_loop", "maybe_effect", "no_effect_here", "writes_count")
+                       "at_effect", "reached_loop", "maybe_effect", "no_effect_here", "effect_here", "writes_count")
         f = n.func.id
         old, binds = self._spec_ctx
         a = n.args
@@ -50,7 +50,7 @@ class SpecMixin:
             lt = getattr(self, "_local_trace", {})
             if f in ("effect", "no_effect") and isinstance(a[0], ast.Constant) and a[0].value in lt:
                 return B(lt[a[0].value] if f == "effect" else z3.Not(lt[a[0].value]))
-            if f in ("effect", "no_effect", "effect_before", "effect_with_arg", "reached_loop", "maybe_effect", "no_effect_here"):
+            if f in ("effect", "no_effect", "effect_before", "effect_with_arg", "reached_loop", "maybe_effect", "no_effect_here", "effect_here"):
                 return B(z3.Const(fresh_name("tr"), z3.BoolSort()))
             if f in ("effect_count", "writes_count"):
                 c = fresh_int("trc"); st.assume(c >= 0)
@@ -268,6 +268,10 @@ class SpecMixin:
             return [Res(st, V(Val.PathV(p_joinp(vp(x.t), vp(y.t))), "Path"))]
         if f == "parses_int":
             return B(is_intstr(vs(v(a[0]).t)))
+        if f == "effect_here":      # a direct occurrence on this path / in this iteration (sound only in positive position: occurrences
+            name = a[0].value        # hidden in loop summaries are not counted)
+            es = [e for e in st.trace if e.name == name]
+            return B(z3.Or(*[e.g() for e in es]) if es else z3.BoolVal(False))
         if f == "no_effect_here":   # no direct occurrence (occurrences inside loops are the loops' own per-iteration obligations)
             name = a[0].value
             es = [e for e in st.trace if e.name == name]
